@@ -24,7 +24,10 @@ ClassOf(k) == CASE k \in IntKinds -> "int" [] k \in UintKinds -> "uint" [] k \in
 \* where a value can be stored
 FieldPaths == {"field", "field2"}                 \* obj.F, obj.In.F (struct reached through an injected pointer)
 PtrPaths == {"ptr"}                               \* pointer-injected scalar:  p = v
-ContainerPaths == {"mapstr", "mapint", "mapvar", "slice", "slicevar", "array", "fieldmap", "fieldslice"}
+ContainerPaths == {"mapstr", "mapint", "mapvar", "mapintvar", "slice", "slicevar", "array", "fieldmap", "fieldslice",
+                   \* the same containers injected by pointer (&m, &s)
+                   "pmapstr", "pmapint", "pmapvar", "pmapintvar", "pslice", "pslicevar"}
+MapPaths == {"mapstr", "mapint", "mapvar", "mapintvar", "pmapstr", "pmapint", "pmapvar", "pmapintvar", "fieldmap"}
 Paths == FieldPaths \cup PtrPaths \cup ContainerPaths
 
 \* what is assigned: the class and width of the source value
@@ -51,16 +54,17 @@ StoreCells == {[what |-> "store", path |-> p, kind |-> k, src |-> s, outcome |->
                  p \in Paths, k \in Kinds, s \in Sources}
 ReadCells == {[what |-> "read", path |-> p, kind |-> k, src |-> "", outcome |-> "conv"] : p \in Paths, k \in Kinds}
              \cup {[what |-> "readmissing", path |-> p, kind |-> k, src |-> "", outcome |-> "conv"] :
-                     p \in {"mapstr", "mapint", "mapvar", "fieldmap"}, k \in Kinds}
+                     p \in MapPaths, k \in Kinds}
 CallCells == {[what |-> "call", path |-> f, kind |-> k, src |-> s, outcome |-> ArgOutcome(k, s)] :
                 f \in CallForms, k \in Kinds, s \in Sources}
 ShadowCells == {[what |-> "shadow", path |-> p, kind |-> k, src |-> "int64", outcome |-> "conv"] :
-                  p \in {"ptr", "value"}, k \in {"int64", "int8", "float64"}}
+                  \* late: the name is injected (by a function the rule calls) AFTER the rule assigned a local of that name
+                  p \in {"ptr", "value", "late"}, k \in {"int64", "int8", "float64"}}
 
 \* a read always yields the CURRENT Go value: after the host (or an injected function called by the rule) changed the data
 \* in place or replaced a pointer on the access path, the same rule on the same data context reads the new value
 RereadCells == {[what |-> "reread", path |-> p, kind |-> k, src |-> how, outcome |-> "conv"] :
-                  p \in {"field", "field2", "mapstr", "slice", "array"}, k \in {"int64", "int8", "float64", "string"},
+                  p \in {"field", "field2", "mapstr", "slice", "array", "pmapstr", "pslice"}, k \in {"int64", "int8", "float64", "string"},
                   how \in {"value", "pointer", "inrule"}}
 
 \* sanity: every same-kind store is promised
